@@ -30,6 +30,9 @@ slices per tier and column count, build_blocks / expand enumerate them):
   P2 "drawing": a reduced kind alphabet x 2 rows (second deviating) x header on/off x all 4 styles x
      all 3 indentations x every alignment vector over {left,right,center}^n x ANSI/plain x 1..3 widths.
   P2 and P1 with n<=2 render every table twice.
+  P3 "edited tables": the table is not new - a table with other content was rendered once and then edited into the table
+     under test by set_row(first) / set_row(last) / add_row / set_rows / set_header_row; all clauses are judged on the rendering
+     of the edited table (a table reached by a history is a table), which is also rendered twice.
 
 Oracle clauses (signature in brackets):
   * render raises nothing                                   [crash:<exc>@<innermost clikit function>]
@@ -210,9 +213,36 @@ def render(case):
     io = BufferedIO(formatter=AnsiFormatter(forced=True) if ansi else PlainFormatter())
     io.set_terminal_dimensions(Rectangle(width, 24))
     table = Table(make_style(style, aligns))
-    if hdr is not None:
-        table.set_header_row(hdr)
-    table.add_rows(rows)
+    if isinstance(twice, (list, tuple)):
+        # P3: the table is reached by an edit of a table that has already been rendered once
+        edit = twice[0]
+        n = len(kinds)
+        other_row = [cell(DEV[k], 7, c)[0] for c, k in enumerate(kinds)]
+        if hdr is not None:
+            table.set_header_row(list(reversed(HEADERS))[:n] if edit == "set_header_row" else hdr)
+        if edit == "set_row":
+            i = twice[1] % len(rows)
+            table.add_rows(rows[:i] + [other_row] + rows[i + 1:])
+        elif edit == "add_row":
+            table.add_rows(rows[:-1])
+        elif edit == "set_rows":
+            table.add_rows([other_row])
+        else:
+            table.add_rows(rows)
+        table.render(io, ind)
+        io.clear_output()
+        if edit == "set_row":
+            table.set_row(twice[1] % len(rows), rows[twice[1] % len(rows)])
+        elif edit == "add_row":
+            table.add_row(rows[-1])
+        elif edit == "set_rows":
+            table.set_rows(rows)
+        elif edit == "set_header_row":
+            table.set_header_row(hdr)
+    else:
+        if hdr is not None:
+            table.set_header_row(hdr)
+        table.add_rows(rows)
     before = copy.deepcopy((hdr, rows))
     table.render(io, ind)  # an exception here is the caller's 'crash:' violation
     out1 = out2 = io.fetch_output()
@@ -465,6 +495,14 @@ P2 = {
 }
 
 
+# P3 "edited tables": n -> kind alphabet; rows (2, deviating row 1) and (3, deviating row 2) x header on/off x the 4 (style, indentation)
+# pairs x 2 widths x every edit {set_row(first), set_row(last), add_row, set_rows, set_header_row} applied AFTER a first rendering
+P3 = {
+    "quick": {1: P2_K4, 2: P2_K4, 3: P2_K3},
+    "thorough": {1: K8, 2: K8, 3: P2_K4},
+}
+
+
 def build_blocks(tier):
     """A block = (part, kinds, nrows, dev, header, width mode); style/indentation/alignment/width/
     ANSI are expanded inside the worker.  Ordered simplest-first."""
@@ -483,6 +521,11 @@ def build_blocks(tier):
         for kinds in itertools.product(alphabet, repeat=n):
             for header in (False, True):
                 blocks.add(("P2", kinds, 2, 1, header, nw))
+    for n, alphabet in P3[tier].items():
+        for kinds in itertools.product(alphabet, repeat=n):
+            for nrows, dev in RC_2[1:] + RC_3[2:]:
+                for header in (False, True):
+                    blocks.add(("P3", kinds, nrows, dev, header, 2))
     return sorted(blocks, key=lambda b: (len(b[1]), b[2], sum(SIZE[k] for k in b[1]), b[4], b[0], b[1], b[3] is not None, b[3] or 0))
 
 
@@ -498,6 +541,15 @@ def expand(block, seed):
             for w in widths_for(vis, style, ind, n, wmode[0], seed):
                 for ansi in ((False, True) if tagged and wmode[1] else (False,)):
                     yield (kinds, nrows, dev, header, style, ind, aligns, w, ansi, n <= 2)
+    elif part == "P3":
+        rot = (sum(kinds) + nrows) % 3
+        aligns = tuple((rot + c) % 3 for c in range(n))
+        edits = [("set_row", 0), ("set_row", nrows - 1), ("add_row",), ("set_rows",)] + ([("set_header_row",)] if header else [])
+        for style, ind in P1_STYLE_IND:
+            lo = min_width(style, ind, n)
+            for w in [lo + 3 * n, 80][:wmode]:
+                for ed in edits:
+                    yield (kinds, nrows, dev, header, style, ind, aligns, w, False, ed)
     else:
         for style in STYLES:
             for ind in INDENTS:
@@ -550,10 +602,11 @@ def main():
                     "('branch': minimum..+2, both sides of every short/long split change and of the fit width, 40, 80, 200, seed-rotated %d; "
                     "'all': also every width from the minimum to fit+1) x ANSI when a tagged cell is present, one rotating alignment vector.  "
                     "P2 per n: %s, each x rows (2, deviating row 1) x header on/off x 4 styles x indent {0,3,8} x all 3^n alignment vectors x "
-                    "ANSI/plain x that many widths.  P2 and P1 with n<=2 render every case twice.  non-trivial = measured: at least one cell "
+                    "ANSI/plain x that many widths.  P2 and P1 with n<=2 render every case twice.  P3 per n: %s x rows (2,dev 1),(3,dev 2) x header "
+                    "on/off x 4 (style,indent) pairs x 2 widths x every edit applied after a first rendering.  non-trivial = measured: at least one cell "
                     "was wrapped (more content lines than rows)" % (
                         {n: [(names(a), rc, wm, ansi) for a, rc, wm, ansi in sl] for n, sl in P1[tier].items()}, P1_STYLE_IND, 20 + (seed * 7) % 181,
-                        {n: (names(a), nw) for n, (a, nw) in P2[tier].items()}))
+                        {n: (names(a), nw) for n, (a, nw) in P2[tier].items()}, {n: names(a) for n, a in P3[tier].items()}))
     for b in blocks[:: max(1, len(blocks) // 5)][:5]:
         rep.sample(next(iter(expand(b, seed))))
     rep.assume("premise 'one character per column beside the borders' = width >= indentation + border characters + cell-format blanks + n "
